@@ -29,7 +29,7 @@ func init() {
 		Assumptions: []string{"exact numeric operands (see C02)", "byte-for-byte equality of deltas and raw content is required because replay runs the same code on the same bytes"},
 		Cases: func(tier, mode string) int {
 			if tier == "thorough" {
-				return len(pairs) * 3000
+				return len(pairs) * 30000
 			}
 			return len(pairs) * 80
 		},
